@@ -61,9 +61,14 @@ META = {
              'finding K-C03-1, replayed on the real code). Route level (C03_curly_route, C03_jsr_route): the invoked route is never '
              'one that another fully eligible route of the same service dominates (literal where it has a variable), for every '
              'registration order and every method / Content-Type / Accept / condition combination - CurlyRouter for well-formed '
-             'templates without custom verb, RouterJSR311 under the measured premise jsr_all_agree. Permutation invariance of '
-             'the whole outcome outside the tie class is checked on the implementation (4 permuted builds per table; '
-             'S.best_match_ok on every invoked route) and by model correspondence; its Coq proof is not done (partial).',
+             'templates without custom verb, RouterJSR311 under the measured premise jsr_all_agree. Order independence '
+             '(C03_order_curly, C03_order_jsr): a table and any re-ordering of its services and of the routes inside them '
+             'answer every request alike (same route function of the same service with the same parameters, or the same '
+             'error with the same Allow set) when same-method routes of a service have distinct paths and no two claiming '
+             'services tie (CurlyRouter: a unique greatest score; RouterJSR311: distinct roots, no two matching roots with '
+             'equal keys); the premises are booleans evaluated per case and the permuted builds of the implementation '
+             'must agree whenever they hold. The proofs rest on both Less relations being strict orders (byte-wise string '
+             'comparison included), not on Go\'s sort algorithm.',
         design_ref='DESIGN.md section 6, C03', note=NOTE_ROUTING, technique=TECH),
     'C18': dict(
         text='The statement at full strength is refuted in Coq with two witnesses that replay on the real code '
@@ -74,9 +79,10 @@ META = {
              'request to the same service whose templates read the same under both (non-empty literals and plain variables), '
              'the path has no empty segment and the eligible routes are strictly ordered by literal-over-variable, both return '
              'the same route with the same parameter map or the same error with the same Allow set; every premise is a boolean '
-             'evaluated on each generated case (hypotheses_of_C18_agree: ~95% of cases). That both routers pick the same service '
-             'for literal roots, and same-shape twins, are compared on the implementation, not proved. Stating the theorem '
-             'exposed defect F8 (newline in the path), repaired.',
+             'evaluated on each generated case (hypotheses_of_C18_agree: ~95% of cases). C18_same_service: for non-empty literal, '
+             'pairwise different roots and a clean path both routers choose the same service (longest root that prefixes '
+             'the URL) or none, so C18_agree_literal_roots needs no such premise. Same-shape twins are compared on the '
+             'implementation, not proved. Stating the theorem exposed defect F8 (newline in the path), repaired.',
         design_ref='DESIGN.md section 6, C18', note=NOTE_ROUTING, technique=TECH),
     'C14': dict(
         text='Theorems Props.C14_curly, C14_tokenize and C14_jsr (Coq, no axioms): under CurlyRouter, for every table, request and '
